@@ -83,6 +83,11 @@ func NewWatermark(maxOutOfOrderness time.Duration, updateInterval time.Duration,
 
 // updateLoop periodically updates watermark based on max event time
 func (wm *Watermark) updateLoop(interval time.Duration) {
+	// the callers replace 0 by the default; a negative WatermarkInterval would make NewTicker panic
+	// in this goroutine and take the process down
+	if interval <= 0 {
+		interval = 200 * time.Millisecond
+	}
 	ticker := time.NewTicker(interval)
 	defer ticker.Stop()
 
